@@ -385,6 +385,35 @@ def guard(ctx: Any) -> List[Ob]:
     return obs
 
 
+@rule('C02.LABELDOM', 'D', expect_min=2)
+def labeldom(ctx: Any) -> List[Ob]:
+    """Faithfulness to RFC 1035 4.1.4 at the label-type boundaries: a first byte below 0x40 (1..63) is an ordinary
+    label -- 63 included --, 0x40..0xBF is rejected, 0xC0 and above is a pointer of the low six bits and the next
+    byte.  A strict parser accepts 63-byte labels, so narrowing the label arm loses valid datagrams."""
+    from .c01 import decoder_label_domain
+
+    return decoder_label_domain(ctx, 'C02.LABELDOM')
+
+
+@rule('C02.STATELESS', 'N', expect_min=10)
+def stateless(ctx: Any) -> List[Ob]:
+    """The decoded result is a function of the datagram alone: nothing reachable from the decoder mutates a mutable
+    module-level container (directly or through a local alias) -- log de-duplication state excepted under the side
+    condition that its users only log.  A module-level memo or scratch buffer would let one datagram change what the
+    next one decodes to."""
+    from .c01 import log_only_state
+    from .common import shared_state_mutations
+
+    R = 'C02.STATELESS'
+    prog = ctx.prog
+    roots = list(prog.cls(INC).methods.values())
+    obs: List[Ob] = []
+    for f in sorted(ctx.cg.closure(roots, include_deferred=False), key=lambda g: g.full):
+        muts = [m for m in shared_state_mutations(prog, f) if not log_only_state(prog, f, m[1])]
+        obs.append(ob(R, f, muts[0][0] if muts else f.name, 'decode path keeps no state between datagrams (no module-level container mutated)', not muts, '; '.join(f'line {n.lineno}: {g} {how}' for n, g, how in muts[:3])))
+    return obs
+
+
 EXPLANATION = (
     'C02.TOTAL (decided): may-raise analysis over the closure of DNSIncoming.__init__ and .answers() with a full catalogue of '
     'implicit exception sources (typed by the mypy oracle); every source must be contained by the DECODE_EXCEPTIONS handlers; an '
@@ -393,4 +422,4 @@ EXPLANATION = (
     'and dominance of the 253 check. C02.GUARD (decided): the 8966-byte gate as a decision table. Not decided: equality with a strict '
     'RFC 1035 parser [X] (the layout part is C01.LAYOUT) and the numeric work budget [X].'
 )
-RULES = [total, depth, loops, namelen, guard]
+RULES = [total, depth, loops, namelen, guard, labeldom, stateless]
